@@ -33,7 +33,8 @@ def main():
     skip_suite = '--skip-suite' in sys.argv
     wt = tempfile.mkdtemp(prefix=f'pi2confirm-{prop}-')
     os.rmdir(wt)
-    rc, out = sh(f'git -C /repo worktree add -q --detach {wt} HEAD', '/')
+    rev = os.environ.get('PI2_CONFIRM_REV', 'HEAD')
+    rc, out = sh(f'git -C /repo worktree add -q --detach {wt} {rev}', '/')
     assert rc == 0, out
     res = {'property': prop, 'name': name}
     try:
@@ -76,7 +77,7 @@ def main():
             meta = {'breaks': [prop], 'origin': 'sub-agent given only the property text and a scratch worktree',
                     'needs': (re.search(r'(?is)(what (it|is) need(s|ed).*?)(\n\n|\Z)', notes).group(1)[:600] if re.search(r'(?is)what (it|is) need', notes) else 'see notes.md'),
                     'files': res.get('files'),
-                    'confirmed': {'how': 'tools/confirm_seed.py in a scratch git worktree of /repo (removed afterwards)',
+                    'confirmed': {'how': 'tools/confirm_seed.py in a scratch git worktree of /repo at ' + os.environ.get('PI2_CONFIRM_REV', 'HEAD') + ' (removed afterwards)',
                                   'demo_unchanged_exit': res['demo_unchanged_rc'], 'demo_patched_exit': res['demo_patched_rc'],
                                   'demo_patched_output_tail': res.get('demo_patched_tail'), 'suite_with_patch': res.get('suite'),
                                   'rust_compiles': res.get('rust_compiles_with_deny_warnings')}}
